@@ -22,7 +22,13 @@ re-registrations (an instance's node is deleted and a node with EQUAL member dat
 name, inside one listing window or in separate ones); a family in which the whole path goes away while the
 notification worker is between the reads of a fresh listing (the session answers in issue order, so worker and watcher
 advance alternately: it takes a listing of 4-5 members for the path to be reported gone after the first read was answered
-and before the last one is).  Events carry the node name `m` and the data id `d`;
+and before the last one is); a family with BLOCKING consumer callbacks (on_join / on_leave sleeping 1 s .. 60 s of virtual
+time or waiting for the script, for the first / middle / last member of a listing, with tree changes meanwhile and afterwards:
+a quiescent point requires that no callback is still running, ops T = time passes, REL = the callback is released); a
+family in which an EMPTY path (child watch armed) is deleted and re-created faster than the client re-reads it.  The
+code-shaped model has the blocking consumer too (policy bj / bl, action Return; weaker design ZKFIX_TO: a callback
+time-out that kills the worker, action Expire).  Serve events carry which request was answered and how (q, r): ZkAbs
+ignores that, `witness` uses it to tell the listed finding (stale children watch) from other failures.  Events carry the node name `m` and the data id `d`;
 `d` of a Join/Leave is read from the Member value the callback received, and ZkAbs judges by value.
 All traces (A and B) are judged by ZkAbs through ZkAbsTrace.
 """
@@ -50,6 +56,9 @@ ASSUMPTIONS = [
   'a watch event is queued on the (real) kazoo callback worker when it fires: delaying it on the wire is equivalent, '
   'for a client that only acts when it reads from its connection, to the tree operation happening later',
   'the session never disconnects or expires (no SUSPENDED/LOST transitions)',
+  'a consumer callback may block (for up to a virtual minute, or until the history releases it) and always returns '
+  'eventually; while it is blocked time passes only when the history says so; a quiescent point is one with no request '
+  'pending and no callback running',
   'member data is well-formed serverset JSON; a member is identified the way a consumer can identify it, by the Member '
   'value it is handed (equal data = equal member, like LoadBalancerSink keys servers by endpoint); histories never have two '
   'nodes with equal data alive at the same time (the statement does not say whether present means nodes or values then), '
@@ -65,7 +74,12 @@ RULE = {'C19': 'tree histories (create/delete of members, delete/re-create of th
                '(0/1 members announced before, 1-4 (thorough 5) new members created at once, the client stopped after every number of '
                'Serve steps, all members deleted in ascending/descending order with 0-1 (thorough 2) Serve steps after the p-th '
                'deletion, the path deleted, served to quiescence, without / with a later re-creation; no callback, every on_leave or '
-               'every on_join raising, thorough also every single one); node names may share data values; non-trivial = at least one member created and at least '
+               'every on_join raising, thorough also every single one) and a family of blocking callbacks (on_join / on_leave of the first / '
+               'middle / last member of a listing of 1-3 blocks for 1 s, 4.9 s, 5.1 s, 60 s (thorough 10 s) or until released; nothing, a '
+               'member created, created and deleted, a member or everything and the path deleted meanwhile; a further change '
+               'afterwards; thorough also with raising callbacks) and a family of empty-path re-creations (no member ever / one '
+               'announced, deleted and settled; 0, 1, 2 Serve steps or a quiescent point before the deletion, 0-2 between deletion '
+               'and re-creation, 0, 1, 2 or a quiescent point after it; then 1-2 members created, one deleted); node names may share data values; non-trivial = at least one member created and at least '
                'one of: path deleted, a member read answered NoNode, a callback raised, a tree operation while requests '
                'are pending; distinct by canonical event list'}
 
@@ -698,7 +712,7 @@ def _mid_read_deletions(thorough):
 
 def _blocking_callbacks(thorough):
   """A consumer callback that BLOCKS (the library's own LoadBalancerSink callbacks wait for its initialisation):
-  the notification worker is parked inside on_join / on_leave for 1 s, 4.9 s, 5.1 s, 10 s, 60 s of virtual time or
+  the notification worker is parked inside on_join / on_leave for 1 s, 4.9 s, 5.1 s, (thorough: 10 s,) 60 s of virtual time or
   until the script releases it.  Nothing can be delivered meanwhile and the consumer is not at a quiescent point
   before the callback has returned; everything that happened meanwhile must be delivered afterwards.
     kind     join: j members created at once (one listing), on_join of the first / middle / last value blocks;
@@ -708,7 +722,7 @@ def _blocking_callbacks(thorough):
     after    a further change after the callback returned
   thorough: also together with a raising callback."""
   out = []
-  durs = [1000, 4900, 5100, 10000, 60000, -1]
+  durs = [1000, 4900, 5100, 10000, 60000, -1] if thorough else [1000, 4900, 5100, 60000, -1]
   for kind in ('join', 'leave'):
     for j in ((1, 2, 3) if thorough else (1, 3)):
       n = j + 1                      # one spare name for changes during / after the block
